@@ -1,6 +1,7 @@
 package props
 
 import (
+	"bytes"
 	"crypto/ed25519"
 	"encoding/json"
 	"fmt"
@@ -40,7 +41,7 @@ var c10Events = []string{
 }
 
 func c10Gen(rt *rapid.T) c10Plan {
-	mode := rapid.SampledFrom([]string{"forge", "forge", "cross-event", "cross-event", "cross-round", "later", "later", "stale-batch", "forge-synth", "forge-synth", "forge-synth-named", "forge-synth-named"}).Draw(rt, "mode")
+	mode := rapid.SampledFrom([]string{"forge", "forge", "cross-event", "cross-event", "cross-round", "later", "later", "stale-batch", "forge-synth", "forge-synth", "forge-synth-named", "forge-synth-named", "forge-synth-json", "forge-synth-json"}).Draw(rt, "mode")
 	nt := rapid.SampledFrom([][2]int{{2, 2}, {3, 2}, {4, 3}}).Draw(rt, "nt")
 	p := c10Plan{Mode: mode, N: nt[0], T: nt[1], Step: rapid.IntRange(0, 500).Draw(rt, "step"),
 		Other: rapid.IntRange(1, 7).Draw(rt, "other"), Event: rapid.IntRange(0, len(c10Events)-1).Draw(rt, "event"),
@@ -50,7 +51,7 @@ func c10Gen(rt *rapid.T) c10Plan {
 		p.Trace = "tworounds"
 	case "stale-batch":
 		p.Trace = "twobatches"
-	case "forge-synth", "forge-synth-named":
+	case "forge-synth", "forge-synth-named", "forge-synth-json":
 		p.Trace = rapid.SampledFrom([]string{"honest", "twobatches"}).Draw(rt, "trace")
 	case "later":
 		p.Trace = rapid.SampledFrom([]string{"twobatches", "twobatches", "honest"}).Draw(rt, "trace")
@@ -121,7 +122,7 @@ func c10Run(t *testing.T, st *vstat.Stats, p c10Plan) (v *viol) {
 		msg.Event = ne
 		key = fmt.Sprintf("replay:cross-event:%s->%s", src.Msg.Event, ne)
 		what = fmt.Sprintf("%s's genuine %s re-posted unchanged under the event name %s", src.Msg.SenderAddr, src.Msg.Event, ne)
-	case "forge-synth", "forge-synth-named":
+	case "forge-synth", "forge-synth-named", "forge-synth-json":
 		// a request of any event type acceptable in this state, made out for participant P (who is still awaited)
 		// but signed and sent by another registered participant S
 		evs := c10StateEvents[src.State]
@@ -137,6 +138,39 @@ func c10Run(t *testing.T, st *vstat.Stats, p c10Plan) (v *viol) {
 		synthOwn = &storage.Message{DkgRoundID: tr.Round, Event: ev, Data: data, SenderAddr: tr.Names[pIdx], Signature: ed25519.Sign(tr.Keys[pIdx].Priv, data)}
 		key = "forged-participant:" + ev
 		what = fmt.Sprintf("a %s request made out for %s (ParticipantId=%d), signed and sent by %s", ev, tr.Names[pIdx], pIdx, tr.Names[sIdx])
+		if p.Mode == "forge-synth-json" {
+			// the same request, signed and sent by S under its own name, with the participant id spelled so that a
+			// careless reader and the FSM's decoder (case-insensitive keys, last duplicate wins, absent = 0) disagree
+			own := fmt.Sprintf(`"ParticipantId":%d`, pIdx)
+			variant := p.Step % 5
+			var repl, how string
+			switch variant {
+			case 0:
+				repl, how = fmt.Sprintf(`"ParticipantId":%d,"participantId":%d`, sIdx, pIdx), "id given twice in different spelling (own id first)"
+			case 1:
+				repl, how = fmt.Sprintf(`"ParticipantId":%d,"ParticipantId":%d`, sIdx, pIdx), "id given twice (own id first)"
+			case 2:
+				repl, how = fmt.Sprintf(`"participantid":%d`, pIdx), "id key in lower case"
+			case 3:
+				repl, how = fmt.Sprintf(`"PARTICIPANTID":%d,"ParticipantId":%d,"participantId":%d`, sIdx, sIdx, pIdx), "id given three times"
+			default:
+				// no id at all: the decoder reads participant 0
+				pIdx = 0
+				sIdx = 1 + p.Later%(tr.N-1)
+				data = c10Synth(ev, pIdx, src.Msg)
+				own = `"ParticipantId":0`
+				repl, how = `"Participant":0`, "id key absent (decoded as 0)"
+				synthOwn = &storage.Message{DkgRoundID: tr.Round, Event: ev, Data: data, SenderAddr: tr.Names[pIdx], Signature: ed25519.Sign(tr.Keys[pIdx].Priv, data)}
+			}
+			if !bytes.Contains(data, []byte(own)) {
+				st.Class("discarded:no-participant-id")
+				return nil
+			}
+			crafted := bytes.Replace(data, []byte(own), []byte(repl), 1)
+			msg = storage.Message{DkgRoundID: tr.Round, Event: ev, Data: crafted, SenderAddr: tr.Names[sIdx], Signature: ed25519.Sign(tr.Keys[sIdx].Priv, crafted)}
+			key = "forged-participant-json:" + ev
+			what = fmt.Sprintf("a %s request acting on %s (participant %d), %s, signed and sent by %s", ev, tr.Names[pIdx], pIdx, how, tr.Names[sIdx])
+		}
 		if p.Mode == "forge-synth-named" {
 			// the same request posted under P's name as well (only the signature is S's); every second case aims at
 			// the observing node's own participant, whose messages also come back to it over the board
@@ -222,7 +256,7 @@ func c10Run(t *testing.T, st *vstat.Stats, p c10Plan) (v *viol) {
 		}
 		// non-triviality: the original is acceptable in its own round and step
 		nontrivial := false
-		if p.Mode == "forge-synth" || p.Mode == "forge-synth-named" {
+		if p.Mode == "forge-synth" || p.Mode == "forge-synth-named" || p.Mode == "forge-synth-json" {
 			// non-trivial iff the very same request, signed by the participant it is made out for, is accepted here
 			nd2, dir2, err := openSnapshot(tr, src.SnapDir)
 			if err == nil {
